@@ -13,11 +13,6 @@
 #include "esl_msa.h"
 #include "esl_wuss.h"
 
-/* Error paths of esl_ct2wuss()/esl_msa_RemoveBrokenBasepairsFromSS() return through ESL_EXCEPTION/ESL_FAIL without
- * freeing their work space. Leaks are outside C15 (DESIGN 3.2); keep LeakSanitizer quiet about exactly these. */
-const char *__lsan_default_suppressions(void);
-const char *__lsan_default_suppressions(void) { return "leak:esl_ct2wuss\nleak:esl_ct2simplewuss\nleak:esl_msa_RemoveBrokenBasepairsFromSS\n"; }
-
 static ESL_MSA *A, *B;
 static ESL_ALPHABET *abc_rna, *abc_dna, *abc_amino;
 
